@@ -167,8 +167,16 @@ Definition successors (ty : Z) (n : node_id) : list node_id :=
   let lo := (end_time n, smallest) in
   map snd (filter (fun k => match key_cmp lo k with Gt => false | _ => true end && can_reach n (snd k))
                   (lookup_sorted ty (nw_type_by_start nw))).
-(* predecessors: range(..(start_time(node), smallest)) over the end-sorted map (EXCLUSIVE upper bound) *)
+(* predecessors: range(..=(start_time(node), largest)) over the end-sorted map (inclusive upper bound;
+   Idx = u16, so largest = EndDepot(65535)) *)
+Definition largest : node_id := ED 65535.
 Definition predecessors (ty : Z) (n : node_id) : list node_id :=
+  let hi := (start_time n, largest) in
+  map snd (filter (fun k => match key_cmp k hi with Gt => false | _ => true end && can_reach (snd k) n)
+                  (lookup_sorted ty (nw_type_by_end nw))).
+(* the enumeration as it was before the repair "fix: predecessors() must include nodes ending exactly at
+   the start time" (exclusive bound); kept for the refutation witness in X_C17.v *)
+Definition predecessors_prefix (ty : Z) (n : node_id) : list node_id :=
   let hi := (start_time n, smallest) in
   map snd (filter (fun k => match key_cmp k hi with Lt => true | _ => false end && can_reach (snd k) n)
                   (lookup_sorted ty (nw_type_by_end nw))).
@@ -283,6 +291,15 @@ Definition all_trips : res (list service_trip) :=
   then Ok (flat_map (fun o => match o with Some t => [t] | None => [] end) trip_opts)
   else Panic.
 
+(* Network::vehicle_upper_bound *)
+Definition trip_required (s : service_trip) : Z :=
+  match (if st_type s <? 0 then None else nth_error (i_types i) (Z.to_nat (st_type s))) with
+  | Some vt => Z.max (div_ceil (st_pass s) (vt_cap vt)) (div_ceil (st_seated s) (vt_seats vt))
+  | None => 0
+  end.
+Definition vehicle_upper_bound (trips : list service_trip) (slots : list islot) : Z :=
+  z_sum (map trip_required trips) + z_sum (map is_tracks slots).
+
 Definition ntypes : nat := length (i_types i).
 Definition tids : list Z := map Z.of_nat (seq 0 ntypes).
 
@@ -307,12 +324,13 @@ Definition load (perm : list Z) : res network :=
   do planning0 <- planning_of e0 l0;
   do trips <- all_trips;
   let nservice := Z.of_nat (length trips) in
-  let depots0 := make_depots perm nservice in
   let slots := match i_slots i with Some l => l | None => [] end in
+  let vub := vehicle_upper_bound trips slots in
+  let depots0 := make_depots perm (Z.max nservice vub) in
   let lim vt := match vt_limit vt with Some l => l | None => 1 end in
   let max_fc := match i_types i with [] => 1 | vt :: r => fold_left Z.max (map lim r) (lim vt) end in
   let overflow_idx := Z.of_nat (length depots0) in
-  let overflow := {| dp_idx := overflow_idx; dp_loc := Nowhere; dp_total := nservice * max_fc;
+  let overflow := {| dp_idx := overflow_idx; dp_loc := Nowhere; dp_total := Z.max (nservice * max_fc) vub;
                      dp_allowed := map (fun t => (t, None)) tids |} in
   let depots := depots0 ++ [overflow] in
   (* depot nodes *)
